@@ -248,16 +248,16 @@ func Equal(a, b *Node, o Options) bool { return Diff(a, b, o) == "" }
 
 // Stream is the result of parsing a (possibly unfinished) XMPP byte stream.
 type Stream struct {
-	Decl     bool    // an XML declaration was present
-	Header   *Node   // the stream:stream (or first open) element; nil if none
-	Elems    []*Node // complete top-level elements inside the header
-	TopText  string  // character data seen between top-level elements
-	Closed   bool    // the header's end tag was seen
-	Other    []string // comments / PIs / directives at top level
-	Consumed int64    // offset after the last complete construct
-	Err      error    // syntax error, or nil (io.EOF and truncated input are not errors)
-	Trailing bool     // input ends inside an unfinished construct
-	AfterClose []byte // bytes after the closing tag
+	Decl       bool     // an XML declaration was present
+	Header     *Node    // the stream:stream (or first open) element; nil if none
+	Elems      []*Node  // complete top-level elements inside the header
+	TopText    string   // character data seen between top-level elements
+	Closed     bool     // the header's end tag was seen
+	Other      []string // comments / PIs / directives at top level
+	Consumed   int64    // offset after the last complete construct
+	Err        error    // syntax error, or nil (io.EOF and truncated input are not errors)
+	Trailing   bool     // input ends inside an unfinished construct
+	AfterClose []byte   // bytes after the closing tag
 }
 
 // ParseStream parses bytes that start with a stream header (depth-1 element
